@@ -76,7 +76,16 @@ def scenario(rng, findings=False):
     used = sorted({cb["prov"] for cb in d["cbs"]} - {"sm"})
     # name references must resolve at construction on some provider: attach every provider that carries a
     # name-style callback at construction; convention-only providers may come late
-    must = {cb["prov"] for cb in d["cbs"] if cb["style"] == "name"} - {"sm"}
+    # (a name provided by several objects needs only ONE of them at construction: the others may be late)
+    by_name = {}
+    for cb in d["cbs"]:
+        if cb["style"] == "name":
+            by_name.setdefault(cb["name"], []).append(cb["prov"])
+    must = set()
+    for nm, ps in by_name.items():
+        if "sm" in ps:
+            continue
+        must.add(rng.choice(sorted(set(ps))))
     steps = []
     ninst = rng.choice([1, 1, 2])
     late = {}
